@@ -219,7 +219,112 @@ def install(spec: Spec):
     m[('Task', 'cancel')] = task_cancel
     m[('Loop', 'create_task')] = create_task
     m[('Loop', 'time')] = loop_time
+    install2(spec)
     spec.builtin_effects.update({
         'put_nowait': ['q_items', 'q_unfinished'], 'get_nowait': ['q_items'], 'task_done': ['q_unfinished'],
         'set': ['ev_set'], 'clear': ['ev_set'], 'cancel': ['task_cancel_requested'], 'shutdown': ['_is_shutdown'],
     })
+
+
+# ------------------------------------------------------------------ coroutines run as tasks (A2, A3, A5)
+def queue_get(ex, n, awaited, recv):
+    d = ('coro', 'CleanShutdownQueue.get', {'self': recv})
+    if not awaited:
+        return V(PY, py=d)
+    return queue_get_await(ex, d)
+
+
+def queue_get_effect(ex, q):
+    """Completion of CleanShutdownQueue.get(): returns the head (queue non-empty at that instant) or raises QueueShutDown
+    (queue shut down and empty). Returns ('ok', head) or ('exc', exc)."""
+    items = q_items(ex, q)
+    nonempty = ex.list_len(items) > 0
+    shut = z3.And(ex.read_field(q.term, '_is_shutdown').term, z3.Not(nonempty))
+    i = ex.choice([nonempty, shut], 'queue.get completes')
+    if i == 0:
+        head = pop_head(ex, q)
+        if 'dequeued' in ex.spec.ghosts:
+            lst = ex.ghost('dequeued')
+            ex.ghost_set('dequeued', ex.list_append(lst, head))
+        return ('ok', head)
+    return ('exc', ex.fresh_exc('QueueShutDown', exact=True))
+
+
+def queue_get_await(ex, d):
+    q = d[2]['self']
+    ex.suspend('Queue.get')
+    kind, v = queue_get_effect(ex, q)
+    if kind == 'ok':
+        return v
+    raise RaiseSig(v, 'Queue.get')
+
+
+def complete_task(ex, task: V):
+    """The task's coroutine finishes now (in the current atomic step)."""
+    info = task_info(task)
+    if info is None or info['coro'] is None:
+        raise Unsupported('completion of an opaque task')
+    key = info['coro'][1]
+    if key == 'CleanShutdownQueue.get':
+        kind, v = queue_get_effect(ex, info['coro'][2]['self'])
+    elif key in ('Queue.join', 'AsyncEvent.wait'):
+        fn = ex.spec.builtins[key + '#complete']
+        kind, v = fn(ex, info['coro'])
+    else:
+        raise Unsupported('completion of task running %s' % key)
+    info['state'] = 'done'
+    info['result' if kind == 'ok' else 'exc'] = v
+    ex.write_field(task.term, 'task_done', mk_bool(True))
+
+
+def asyncio_wait(ex, n, awaited, recv=None):
+    """A3: asyncio.wait(fs, timeout=t) returns (done, pending) within t; never raises TimeoutError; does not cancel."""
+    fs = ex.eval(n.args[0])
+    if not (fs.py and fs.py[0] == 'setlit' and len(fs.py[1]) == 1):
+        raise Unsupported('asyncio.wait over other than a one-task set literal')
+    task = fs.py[1][0]
+    tmo = kw(n, 'timeout')
+    tv = ex.eval(tmo) if tmo is not None else mk_none()
+    if not awaited:
+        raise Unsupported('asyncio.wait not awaited')
+    ex.suspend('asyncio.wait')
+    info = task_info(task)
+    already = info is not None and info['state'] == 'done'
+    can_timeout = z3.BoolVal(True) if tv.ty.kind != 'obj' else tv.term != NONE
+    i = 0 if already else ex.choice([None, can_timeout], 'asyncio.wait: task done?')
+    if i == 0:
+        if not already:
+            if info is not None and info['coro'] is not None:
+                complete_task(ex, task)
+                ex.suspend('asyncio.wait(after completion)')   # other tasks may run between the inner task finishing and the waiter resuming
+            else:
+                ex.write_field(task.term, 'task_done', mk_bool(True))
+        return V(Ty('tuple', (BOOL, BOOL)), (mk_bool(True), mk_bool(False)))
+    ex.st.flags['waited_out'] = True
+    return V(Ty('tuple', (BOOL, BOOL)), (mk_bool(False), mk_bool(True)))
+
+
+def task_await(ex, task: V):
+    info = task_info(task)
+    if info is None:
+        raise Unsupported('await of an opaque task')
+    if info['state'] == 'done':
+        if info['exc'] is not None:
+            raise RaiseSig(info['exc'], 'task exception')
+        return info['result'] if info['result'] is not None else mk_none()
+    model = info.get('await_model')
+    if model is not None:
+        return model(ex, task)
+    if info['coro'] is not None and info['coro'][1] in ('CleanShutdownQueue.get',):
+        ex.suspend('await task')
+        complete_task(ex, task)
+        return task_await(ex, task)
+    raise Unsupported('await of task running %r' % (info['coro'][1] if info['coro'] else None,))
+
+
+def install2(spec: Spec):
+    spec.methods[('CleanShutdownQueue', 'get')] = queue_get
+    spec.builtins['CleanShutdownQueue.get#await'] = queue_get_await
+    spec.builtins['asyncio.wait'] = asyncio_wait
+    spec.builtins['Task#await'] = task_await
+    spec.builtin_effects.update({'wait': ['q_items', 'task_done'], 'get': ['q_items']})
